@@ -134,6 +134,8 @@ class VerusBlock:
         self.spec = ""
         self.pre = ""
         self.loops = {}
+        self.loopbody = {}
+        self.tail = ""
         self.subst = []
         self.line_start = None
         self.line_end = None
@@ -197,6 +199,15 @@ def render_fn(doc, it, blk):
         if n >= len(loops):
             raise Undecided("lost anchor: loop %d of `%s` not found (function has %d loops)" % (n, blk.key, len(loops)))
         ins.append((loops[n]["body_start"], "\n" + inv.rstrip() + "\n"))
+    for n, txt in blk.loopbody.items():
+        loops = it.get("loops", [])
+        if n >= len(loops):
+            raise Undecided("lost anchor: loop %d of `%s` not found" % (n, blk.key))
+        ins.append((loops[n]["body_start"] + 1, "\n" + txt.rstrip() + "\n"))
+    if blk.tail.strip():
+        if "tail_start" not in it:
+            raise Undecided("lost anchor: `%s` has no tail expression for the //@@ tail hint" % blk.key)
+        ins.append((it["tail_start"], blk.tail.rstrip() + "\n"))
     for n in range(len(it.get("loops", []))):
         if n not in blk.loops and not blk.opts.get("allow_bare_loops"):
             raise Undecided("loop %d of `%s` has no registered invariant (function restructured?)" % (n, blk.key))
@@ -229,7 +240,8 @@ def build_verus_unit(template_path, repo=None):
     """Returns (text, blocks). Template directives (each on its own line):
          //@@ source <path relative to repo>            selects the file for following blocks
          //@@ fn <item key> [ret=<name>] [as=<verus fn name suffix>] [ob=<obligation name>] [allow_bare_loops=1]
-         //@@ spec | //@@ pre | //@@ loop <n> | //@@ subst <from> ==> <to>
+         //@@ spec | //@@ pre | //@@ loop <n> (invariant before the loop body brace) | //@@ loopbody <n> (proof hint
+         at the start of the loop body) | //@@ tail (proof hint before the tail expression) | //@@ subst <from> ==> <to>
          //@@ end
          //@@ item <item key>          (verbatim copy of a non-fn item without attributes)
     """
@@ -275,6 +287,11 @@ def build_verus_unit(template_path, repo=None):
                 elif t.startswith("//@@ loop "):
                     section = ("loop", int(t.split()[2]))
                     blk.loops[section[1]] = ""
+                elif t.startswith("//@@ loopbody "):
+                    section = ("loopbody", int(t.split()[2]))
+                    blk.loopbody[section[1]] = ""
+                elif t == "//@@ tail":
+                    section = "tail"
                 elif t.startswith("//@@ subst "):
                     a, b = t[len("//@@ subst "):].split(" ==> ")
                     blk.subst.append((a, b))
@@ -283,8 +300,12 @@ def build_verus_unit(template_path, repo=None):
                         blk.spec += lines[i] + "\n"
                     elif section == "pre":
                         blk.pre += lines[i] + "\n"
-                    elif isinstance(section, tuple):
+                    elif section == "tail":
+                        blk.tail += lines[i] + "\n"
+                    elif isinstance(section, tuple) and section[0] == "loop":
                         blk.loops[section[1]] += lines[i] + "\n"
+                    elif isinstance(section, tuple):
+                        blk.loopbody[section[1]] += lines[i] + "\n"
                 i += 1
             if i >= len(lines):
                 raise Undecided("template %s: unterminated block %s" % (template_path, key))
